@@ -142,6 +142,9 @@ pub fn check(p: &Pos, rep: &mut Report, rng: &mut StdRng, exhaustive: bool) {
     }
     if rng.gen_range(0..2) == 0 { move_list(p, rep, rng); }
     if rng.gen_range(0..2) == 0 { san_side_effects(p, rep, rng); }
+    if rng.gen_range(0..2) == 0 {
+        for o in foreign_sources(p, rng) { foreign_handles(p, &o, rep); }
+    }
 }
 
 /// make_all_uci: all-or-nothing
@@ -276,4 +279,75 @@ pub fn san_side_effects(p: &Pos, rep: &mut Report, rng: &mut StdRng) {
             }
         }
     }
+}
+
+/// Move::to_pgn_string with a move value that was generated on another board (a stale or foreign
+/// handle): the conversion has to decide by what the move denotes on THIS board — Ok with the SAN
+/// the rules define if it denotes a legal move here, an error otherwise — and must leave the board
+/// as it was in both cases.
+pub fn foreign_handles(p: &Pos, other: &Pos, rep: &mut Report) {
+    let fen = p.to_fen();
+    let ofen = other.to_fen();
+    let legal: BTreeSet<String> = p.legal_moves().iter().map(|m| m.uci()).collect();
+    let r = guarded_mut(|| {
+        let mut bb = load(p)?;
+        let mut ob = load(other)?;
+        let foreign = ob.generate_pseudo_legal_moves();
+        let before = snap(&bb);
+        let mut out = Vec::new();
+        for mv in foreign {
+            let u = mv.to_uci_string();
+            let r = guarded_mut(|| mv.to_pgn_string(&mut bb).map_err(|e| format!("{:?}", e)));
+            let d = before.diff(&snap(&bb));
+            if !d.is_empty() { bb = load(p)?; }
+            out.push((u, r, d));
+        }
+        Ok::<_, String>(out)
+    });
+    match r {
+        Err(pm) => rep.violation(&format!("foreign-{}", panic_sig(&pm)), format!("panicked in {}: {}", fen, pm), json!({"kind":"c13-foreign","fen":fen,"other":ofen})),
+        Ok(Err(e)) => rep.violation("load-failed", e, json!({"kind":"c13-foreign","fen":fen,"other":ofen})),
+        Ok(Ok(out)) => {
+            for (u, r, d) in out {
+                rep.eval();
+                rep.count("foreign_handle_calls");
+                let replay = json!({"kind":"c13-foreign","fen":fen,"other":ofen,"move":u});
+                let is_legal = legal.contains(&u);
+                rep.count(if is_legal { "foreign_handle_legal_here" } else { "foreign_handle_not_legal_here" });
+                match r {
+                    Err(pm) => rep.violation(&format!("to_pgn_string-{}", panic_sig(&pm)), format!("to_pgn_string({}) panicked in {}: {}", u, fen, pm), replay),
+                    Ok(res) => {
+                        if !d.is_empty() {
+                            rep.violation(&format!("to_pgn_string-side-effect:{}", if res.is_ok() { "ok" } else { "err" }), format!("to_pgn_string({}) of a move generated in {} -> {:?} changed {} of {}", u, ofen, res, d, fen), replay);
+                        } else if res.is_ok() != is_legal {
+                            rep.violation(&format!("to_pgn_string-verdict:{}", if is_legal { "rejects-legal" } else { "accepts-illegal" }), format!("to_pgn_string({}) of a move generated in {} -> {:?} in {}", u, ofen, res, fen), replay);
+                        } else if let Ok(s) = res {
+                            let m = p.legal_moves().into_iter().find(|m| m.uci() == u).unwrap();
+                            let want = san::san(p, m);
+                            if s != want {
+                                rep.violation("to_pgn_string-wrong-san", format!("to_pgn_string({}) -> {} expected {} in {}", u, s, want, fen), replay);
+                            }
+                        }
+                    }
+                }
+            }
+        }
+    }
+}
+
+/// positions the foreign handles come from: a few plies further along a walk from p (same piece
+/// placement neighbourhood, different clocks / en-passant / castling bits), p with the other side to
+/// move, and an unrelated position
+pub fn foreign_sources(p: &Pos, rng: &mut StdRng) -> Vec<Pos> {
+    let mut v = Vec::new();
+    let pol = gen::POLICIES[rng.gen_range(0..3)];
+    let n = rng.gen_range(2..=6);
+    let (ps, _) = gen::walk(rng, p, pol, n);
+    if let Some(l) = ps.last() { v.push(l.clone()); }
+    if ps.len() > 2 { v.push(ps[2].clone()); }
+    let mut o = p.clone();
+    o.half = (o.half + 7) % 90;
+    o.ep = None;
+    v.push(o);
+    v
 }
